@@ -79,13 +79,13 @@ def setLastDur (rev : List Sample) (d : Nat) : List Sample :=
   | [] => []
   | s :: r => { s with dur := some d } :: r
 
-inductive CfgRes where | none | panic | some (c : VideoConfig)
+inductive CfgRes where | none | some (c : VideoConfig)
 
 def extractConfig (codec : VCodec) (data : Bytes) : CfgRes :=
   match codec with
   | .h264 => match extractAvc data with | some c => .some (.avc c) | none => .none
   | .h265 => match extractHevc data with | some c => .some (.hevc c) | none => .none
-  | .av1 => match extractAv1 data with | .some c => .some (.av1 c) | .none => .none | .panic => .panic
+  | .av1 => match extractAv1 data with | .some c => .some (.av1 c) | .none => .none
   | .vp9 => match extractVp9 data with | some c => .some (.vp9 c) | none => .none
 
 def convertPayload (codec : VCodec) (data : Bytes) : Bytes :=
@@ -93,50 +93,55 @@ def convertPayload (codec : VCodec) (data : Bytes) : Bytes :=
   | .h264 | .h265 => toAvcc data
   | .av1 | .vp9 => data
 
-/-- `write_video_sample_with_dts` -/
+/-- `write_video_sample_with_dts`: all checks first; the writer state is touched only when the
+    frame is accepted (previous sample's duration, `video_last_delta`, config, push). -/
 def Writer.writeVideo (w : Writer) (pts dts : Nat) (data : Bytes) (key : Bool) : Writer × WRes :=
   if w.finalized then (w, .err .alreadyFinalized) else
-  let step1 : Except WRes Writer :=
+  let step1 : Except WRes (Option Nat × Option VideoConfig) :=
     match w.vPrev with
     | some prev =>
       if dts ≤ prev then .error (.err .nonIncreasingTimestamp) else
       let delta := dts - prev
       if delta > u32Max then .error (.err .durationOverflow) else
-      .ok { w with vsRev := setLastDur w.vsRev delta, vLastDelta := some delta }
+      .ok (some delta, none)
     | none =>
       if ¬ key then .error (.err .firstFrameMustBeKeyframe) else
       match extractConfig w.codec data with
-      | .panic => .error .panic
       | .none => .error (.err (match w.codec with
           | .av1 => .firstFrameMissingSequenceHeader
           | .vp9 => .firstFrameMissingVp9Config
           | _ => .firstFrameMissingSpsPps))
-      | .some c => .ok { w with vConfig := some c }
+      | .some c => .ok (none, some c)
   match step1 with
   | .error r => (w, r)
-  | .ok w1 =>
+  | .ok (delta?, cfg?) =>
     let converted := convertPayload w.codec data
-    if converted.length > u32Max then (w1, .err .durationOverflow) else
-    ({ w1 with vsRev := ⟨pts, dts, converted, key, none⟩ :: w1.vsRev, vPrev := some dts }, .ok)
+    if converted.length > u32Max then (w, .err .durationOverflow) else
+    let w1 := match delta? with
+      | some d => { w with vsRev := setLastDur w.vsRev d, vLastDelta := some d }
+      | none => w
+    let w2 := match cfg? with
+      | some c => { w1 with vConfig := some c }
+      | none => w1
+    ({ w2 with vsRev := ⟨pts, dts, converted, key, none⟩ :: w2.vsRev, vPrev := some dts }, .ok)
 
-/-- `write_audio_sample` — note the order: the previous sample's duration and `audio_last_delta`
-    are patched *before* the payload is validated (mp4.rs:563-611). -/
+/-- `write_audio_sample`: timestamp checks, then payload validation, then the state update. -/
 def Writer.writeAudio (w : Writer) (pts : Nat) (data : Bytes) : Writer × WRes :=
   if w.finalized then (w, .err .alreadyFinalized) else
   match w.audio with
   | none => (w, .err .audioNotEnabled)
   | some tr =>
-    let step1 : Except WRes Writer :=
+    let step1 : Except WRes (Option Nat) :=
       match w.aPrev with
       | some prev =>
         if pts < prev then .error (.err .nonIncreasingTimestamp) else
         let delta := pts - prev
         if delta > u32Max then .error (.err .durationOverflow) else
-        .ok { w with asRev := setLastDur w.asRev delta, aLastDelta := some delta }
-      | none => .ok w
+        .ok (some delta)
+      | none => .ok none
     match step1 with
     | .error r => (w, r)
-    | .ok w1 =>
+    | .ok delta? =>
       let payload : Except WErr Bytes :=
         match tr.codec with
         | .aac _ => match adtsToRaw data with
@@ -145,9 +150,12 @@ def Writer.writeAudio (w : Writer) (pts : Nat) (data : Bytes) : Writer × WRes :
         | .opus => if isValidOpus data then .ok data else .error .invalidOpusPacket
         | .none => .error .audioNotEnabled
       match payload with
-      | .error e => (w1, .err e)
+      | .error e => (w, .err e)
       | .ok sd =>
-        if sd.length > u32Max then (w1, .err .durationOverflow) else
+        if sd.length > u32Max then (w, .err .durationOverflow) else
+        let w1 := match delta? with
+          | some d => { w with asRev := setLastDur w.asRev d, aLastDelta := some d }
+          | none => w
         ({ w1 with asRev := ⟨pts, pts, sd, false, none⟩ :: w1.asRev, aPrev := some pts }, .ok)
 
 /-! ### sample tables -/
@@ -435,8 +443,10 @@ deriving Repr, DecidableEq
 def Ent.le (a b : Ent) : Bool :=
   a.ts < b.ts || (a.ts == b.ts && (a.kind < b.kind || (a.kind == b.kind && a.idx ≤ b.idx)))
 
+/-- schedule entries of one track: video is keyed by decode time, audio by presentation time
+    (= decode time for audio) -/
 def entsOf (kind : Nat) (samples : List Sample) : List Ent :=
-  (List.zip (List.range samples.length) samples).map fun (i, s) => ⟨s.pts, kind, i⟩
+  (List.zip (List.range samples.length) samples).map fun (i, s) => ⟨s.dts, kind, i⟩
 
 /-- `sort_by_key` on unique keys = the unique sorted permutation; modelled by `mergeSort`. -/
 def schedule (vs aus : List Sample) : List Ent :=
@@ -482,11 +492,10 @@ def bMoov (width height : Nat) (vt : Tables) (audio : Option (AudioTrack × Tabl
     (match md.bind bUdta with | some u => [u] | none => []))
 
 /-- panics raised while building the moov: zero-size sample in `build_stsz_box`,
-    width/height > 65535 in the sample-entry builder, i64 overflow of `pts - dts`. -/
+    i64 overflow of `pts - dts`. (Width/height > 65535 are rejected by `finalize` itself.) -/
 def moovPanics (width height : Nat) (vs aus : List Sample) (hasAudio : Bool) : Bool :=
   vs.any (fun s => (ctsOf s.pts s.dts).isNone) ||
   (hasAudio && aus.any (fun s => (ctsOf s.pts s.dts).isNone)) ||
-  width > 65535 || height > 65535 ||
   vs.any (fun s => s.data.length = 0) || (hasAudio && aus.any (fun s => s.data.length = 0))
 
 def mdatHeader (payloadSize : Nat) : List Bytes := [u32be (8 + payloadSize), ascii "mdat"]
@@ -551,21 +560,25 @@ def finalizeFastStart (w : Writer) (width height : Nat) (md : Option Metadata) (
 def Writer.finalize (w : Writer) (width height : Nat) (md : Option Metadata) (fast : Bool) : Writer × FinOut :=
   if w.finalized then (w, ⟨[], .ioErr "mp4 writer already finalised"⟩) else
   let w' := { w with finalized := true }
+  if width > 65535 ∨ height > 65535 then (w', ⟨[], .ioErr "video width and height must fit in 16 bits"⟩) else
   let vc := w.vConfig.getD (.avc defaultAvc)
   (w', if fast then finalizeFastStart w width height md vc else finalizeStandard w width height md vc)
 
-/-- `max_end_pts` (none = u64 overflow of `last.pts + last_delta`, a panic with overflow checks) -/
-def Writer.maxEndPts (w : Writer) : Option (Option Nat) :=
-  let trackEnd (rev : List Sample) (ld : Option Nat) : Option (Option Nat) :=
-    match rev with
-    | [] => some none
-    | s :: _ => if s.pts + ld.getD 0 > u64Max then none else some (some (s.pts + ld.getD 0))
+/-- end of presentation of a track: max over samples of `pts + duration` (saturating); the
+    newest sample (head of the reversed list) falls back to `last_delta`, older ones to 0 -/
+def trackEnd (rev : List Sample) (ld : Option Nat) : Option Nat :=
+  match rev with
+  | [] => none
+  | s :: older =>
+    let e0 := min (s.pts + (match s.dur with | some d => d | none => ld.getD 0)) u64Max
+    some (older.foldl (fun acc x => max acc (min (x.pts + x.dur.getD 0) u64Max)) e0)
+
+/-- `max_end_pts` -/
+def Writer.maxEndPts (w : Writer) : Option Nat :=
   match trackEnd w.vsRev w.vLastDelta, trackEnd w.asRev w.aLastDelta with
-  | none, _ => none
-  | _, none => none
-  | some (some v), some (some a) => some (some (max v a))
-  | some (some v), some none => some (some v)
-  | some none, some (some a) => some (some a)
-  | some none, some none => some none
+  | some v, some a => some (max v a)
+  | some v, none => some v
+  | none, some a => some a
+  | none, none => none
 
 end Muxide
